@@ -133,3 +133,19 @@ Proof.
       destruct k as [|[|[|[|k]]]]; simpl in Hk; try discriminate; try lia; destruct k; discriminate.
   - intros H. apply (H 1%nat 2%nat ltac:(lia) eq_refl 8%nat). reflexivity.
 Qed.
+
+(* the section level: trigger k of the written section is the encoding of what was decoded from trigger k of the read section,
+   and the section keeps its number of triggers *)
+Theorem trig_section_triggerwise cx cx' v ts v' :
+  trig_decode cx v = Ok ts -> trig_encode cx' ts = Ok v' ->
+  length (vlist "_triggers" v') = length (vlist "_triggers" v) /\
+  forall k tv, nth_error (vlist "_triggers" v) k = Some tv ->
+    exists t tv', trigger_decode cx tv = Ok t /\ trigger_encode cx' t = Ok tv' /\ nth_error (vlist "_triggers" v') k = Some tv'.
+Proof.
+  unfold trig_decode, trig_encode. intros Hd He. inv_bind He as vs Hvs Hk.
+  assert (vlist "_triggers" v' = vs) as -> by (inversion Hk; reflexivity). clear Hk.
+  split.
+  - pose proof (mapM_length _ _ _ Hvs) as L1. pose proof (mapM_length _ _ _ Hd) as L2. congruence.
+  - intros k tv Hk. destruct (mapM_nth _ _ _ _ _ Hd Hk) as (t & Ht & Hnt).
+    destruct (mapM_nth _ _ _ _ _ Hvs Hnt) as (tv' & Htv' & Hn'). exists t, tv'. auto.
+Qed.
